@@ -26,7 +26,9 @@ CHECKS = {
     "C04": dict(level="exploration", ref="DESIGN.md §4 C04",
                 text="Seeded histories with long action runs (|octave| past 11, |semitone| up to ~110), pair resets, saturation; note/channel/velocity arithmetic "
                      "and Device.State() compared with an integer reference model after every step.",
-                note="Bounded to <= 100 octave and <= 110 semitone actions per run (the 8-bit device state wraps beyond; the statement is silent there)."),
+                note="Bounded to <= 100 octave and <= 110 semitone actions per run (the 8-bit device state wraps at the 128th; recorded in DESIGN 13a as known and not repaired). "
+                     "Hats that trigger actions are mixed with action keys; never generated, because the statement speaks of both KEYS of a pair: a key and a hat holding the same action "
+                     "or the two halves of one pair, a hat deflected while a complete key pair is held. An action may have a second key."),
     "C05": dict(level="exploration", ref="DESIGN.md §4 C05",
                 text="A byte-level well-formedness monitor on every message of seeded runs over corner configurations that the real parser accepts "
                      "(rejected ones are counted as skipped); the same monitor runs inside every other W1 check.",
@@ -35,23 +37,28 @@ CHECKS = {
                 text="Sweeps of raw axis positions (all values of 8-bit and hat axes, edges/deadzone edges/random values of 16-bit axes) in ascending, descending and "
                      "shuffled order against an exact-rational transfer function: +-1 step, exact end stops and rest values, monotonicity, duplicate suppression. "
                      "Neither schedule nor fault matters to this property; it is decided by the same event-stream-vs-reference loop.",
-                note="Positions within 1e-9 of a deadzone boundary are not asserted (float vs exact arithmetic); deadzones outside [0,1) are outside the model."),
+                note="Positions within 1e-9 of a deadzone boundary are not asserted (float vs exact arithmetic); deadzones outside [0,1] are outside the model; axes whose reported minimum is "
+                     "above 0 are not generated (DESIGN 13a). The first position of an axis is transmitted whatever it is; an axis without known range transmits nothing."),
     "C07": dict(level="exploration", ref="DESIGN.md §4 C07",
                 text="Seeded position sequences on 1-3 bidirectional axes (signed and centred-unsigned, offsets, jumps across the centre, exact centre) interleaved with "
                      "cc_learning; receiver-side invariants after every processed event.",
-                note="No channel changes inside these runs (not in the quantifier)."),
+                note="A third of the runs keep the stick deflected across channel and mapping changes (other mappings mirror or shift the controller pair), use one controller number on two "
+                     "channels, or start from a receiver that an earlier session left non-zero. The two sides of an axis are always distinct (channel, number) pairs."),
     "C08": dict(level="exploration", ref="DESIGN.md §4 C08",
                 text="Seeded sequences on hat and stick axes emulating keys (two-sided and one-sided, flipped, signed/unsigned) interleaved with transposition and channel "
                      "actions; direction state machine with hysteresis, pinned Note Off, silence where no note is configured.",
-                note="Positions within 1e-6 of the 0.5/0.49 thresholds are not generated."),
+                note="Positions within 1e-6 of the 0.5/0.49 thresholds are not generated. On a jump between directions the Note Off must precede the Note On; between 49 % and 50 % of the other side "
+                     "the side that was left is off. Two sub-handlers reporting the same axis code are part of the workload."),
     "C13": dict(level="exploration", ref="DESIGN.md §4 C13",
                 text="Panic injected at PRNG-chosen points of collision-rich histories in all modes and channels; the panic step must be exactly CC123 + 128 Note Offs on "
                      "the current channel and the continuation must equal the model that ignores the panic.",
-                note="Trusted: simgen rewriting; receiver model."),
+                note="Panic is injected also while an up/down pair of action keys is held, by key and by a hat whose role differs between mappings, and with MIDI input of every kind arriving. "
+                     "The emitter's own slices are kept and compared at the end of the run (a consumer a few messages behind must read what was emitted)."),
     "C14": dict(level="exploration", ref="DESIGN.md §4 C14",
                 text="Exit sequences of length 0-3 sharing keys with notes and actions, all press/release orders mixed with other keys; signal count, silent completing "
                      "press and unchanged state checked per step.",
-                note="Further presses while the whole sequence stays held are not generated (the statement is silent about them)."),
+                note="Further presses while the whole sequence stays held are not generated (the statement is silent about them). At a third of the completing presses the one-slot signal "
+                     "channel already holds an unread signal."),
     "C15": dict(level="exploration", ref="DESIGN.md §4 C15",
                 text="Seeded schedules of the real relay goroutines and the real fan-out with concurrent emitters, a numbered input stream and consumers that attach, "
                      "detach, read slowly or stop reading; oracles over the recorded history stamped with scheduler sequence numbers: exactly-once, per-emitter FIFO, "
